@@ -85,13 +85,17 @@ class Overlay:
             if d == 'fn':
                 cur_fn = arg
                 self.fns.setdefault(cur_fn, {'loops': {}, 'closures': {}, 'beforeloop': {},
-                                             'loopentry': {}, 'ret': 'res', 'line': ln})
+                                             'loopentry': {}, 'loopvar': {}, 'ret': 'res', 'line': ln})
                 cur_sec = None
             elif d == 'ret':
                 self.fns[cur_fn]['ret'] = arg
                 cur_sec = None
             elif d in ('spec', 'entry', 'params'):
                 cur_sec = (d,)
+            elif d == 'loopvar':
+                n, name = arg.split()
+                self.fns[cur_fn]['loopvar'][int(n)] = name
+                cur_sec = None
             elif d in ('loop', 'closure', 'beforeloop', 'loopentry'):
                 cur_sec = (d, int(arg))
             elif d in ('global', 'prelude'):
@@ -155,7 +159,7 @@ class FnRewriter:
         self.sf = sf
         self.kind, self.name, self.s, self.e, self.bo = item
         self.fnkey = fnkey
-        self.ov = ov or {'loops': {}, 'closures': {}, 'beforeloop': {}, 'loopentry': {}, 'ret': 'res'}
+        self.ov = ov or {'loops': {}, 'closures': {}, 'beforeloop': {}, 'loopentry': {}, 'loopvar': {}, 'ret': 'res'}
         self.unit = unit
         self.log = log
         self.relpath = os.path.relpath(sf.path, unit['repo'])
@@ -166,7 +170,7 @@ class FnRewriter:
     def emit(self):
         """Return list of Piece for this function."""
         toks = self.sf.toks
-        rw = set(self.unit.get('rewrites', ['R1', 'R2', 'R3', 'R8']))
+        rw = set(self.unit.get('rewrites', ['R1', 'R2', 'R3', 'R8', 'R9']))
         pathmap = self.unit.get('pathmap', {})
         pieces = []
         cur = []          # accumulating repo text
@@ -403,8 +407,42 @@ class FnRewriter:
                         overlay_piece(text, line, 'beforeloop%d' % n)
                     # find the body '{'
                     b = self._loop_body_open(j, hi)
+                    des = self._for_mut_iter(j, b) if (t.text == 'for' and 'R9' in rw) else None
+                    if des is not None:
+                        # R9: `for PAT in &mut IT { B }`  ==>  `loop { match IT.next() { Some(PAT) => { B } None => break, } }`
+                        pat, itname = des
+                        e = match_close(toks, b)
+                        self.log.append({'rule': 'R9', 'fn': self.fnkey, 'line': self.sf.line_of(t.start),
+                                         'what': 'for %s in &mut %s desugared to loop/match %s.next()' % (pat, itname, itname)})
+                        out('loop' + _nl(''.join(x.text for x in toks[j:b])), j)
+                        if overlay_piece and n in self.ov['loops']:
+                            text, line = self.ov['loops'][n]
+                            overlay_piece('\n' + text, line - 1, 'loop%d' % n)
+                        out('{', b)
+                        if overlay_piece and n in self.ov['loopentry']:
+                            text, line = self.ov['loopentry'][n]
+                            overlay_piece('\n' + text, line - 1, 'loopentry%d' % n)
+                        out(' match %s.next() { Some(%s) => {' % (itname, pat), b)
+                        self._emit_range(b + 1, e, out, rw, pathmap, in_body, overlay_piece)
+                        out('} None => break, } }', e)
+                        j = e + 1
+                        continue
                     self._emit_range(j, j + 1, lambda tx, k: out(tx, k), set(), {}, False)
-                    self._emit_range(j + 1, b, out, rw, pathmap, in_body, overlay_piece)
+                    if t.text == 'for' and n in self.ov.get('loopvar', {}):
+                        # R8: name the ghost iterator  `for PAT in it: EXPR`
+                        q = j + 1
+                        while q < b:
+                            tq = toks[q]
+                            if tq.kind == 'punct' and tq.text in '([':
+                                q = match_close(toks, q)
+                            elif tq.kind == 'ident' and tq.text == 'in':
+                                break
+                            q += 1
+                        self._emit_range(j + 1, q + 1, out, rw, pathmap, in_body, overlay_piece)
+                        out(' %s:' % self.ov['loopvar'][n], q)
+                        self._emit_range(q + 1, b, out, rw, pathmap, in_body, overlay_piece)
+                    else:
+                        self._emit_range(j + 1, b, out, rw, pathmap, in_body, overlay_piece)
                     if overlay_piece and n in self.ov['loops']:
                         text, line = self.ov['loops'][n]
                         overlay_piece('\n' + text, line - 1, 'loop%d' % n)
@@ -474,6 +512,24 @@ class FnRewriter:
                     overlay_piece(text, line, 'closure%d' % n)
                     out(_nl(orig), j)
                     j = ce + 1
+                    # an annotated closure needs a block body: wrap a bare expression body
+                    q = j
+                    while q < hi and toks[q].kind in ('ws', 'comment'):
+                        q += 1
+                    if not (toks[q].kind == 'punct' and toks[q].text == '{'):
+                        e = q
+                        while e < hi:
+                            te = toks[e]
+                            if te.kind == 'punct' and te.text in rustlex.OPEN:
+                                e = match_close(toks, e) + 1
+                                continue
+                            if te.kind == 'punct' and te.text in ',)]};':
+                                break
+                            e += 1
+                        out('{', q)
+                        self._emit_range(q, e, out, rw, pathmap, in_body, overlay_piece)
+                        out('}', e - 1)
+                        j = e
                     continue
                 else:
                     for q in range(j, ce + 1):
@@ -482,6 +538,28 @@ class FnRewriter:
                     continue
             out(t.text, j)
             j += 1
+
+    def _for_mut_iter(self, j, b):
+        """`for PAT in &mut IDENT {` -> (PAT text, IDENT) else None."""
+        toks = self.sf.toks
+        k = j + 1
+        depth = 0
+        in_kw = None
+        while k < b:
+            t = toks[k]
+            if t.kind == 'punct' and t.text in '([':
+                k = match_close(toks, k)
+            elif t.kind == 'ident' and t.text == 'in':
+                in_kw = k
+                break
+            k += 1
+        if in_kw is None:
+            return None
+        pat = ''.join(x.text for x in toks[j + 1:in_kw]).strip()
+        rest = [x for x in toks[in_kw + 1:b] if x.kind not in ('ws', 'comment')]
+        if len(rest) == 3 and rest[0].text == '&' and rest[1].text == 'mut' and rest[2].kind == 'ident':
+            return pat, rest[2].text
+        return None
 
     def _is_loop_kw(self, j):
         """`for` also appears in `impl Trait for`, HRTB `for<'a>`; inside a
